@@ -1,0 +1,35 @@
+//! Verification hooks (only compiled with `--cfg oxidd_verif`)
+//!
+//! Nothing in here changes the behaviour of OxiDD unless a test harness
+//! installs a callback via [`set_yield_hook()`].
+
+use std::sync::atomic::{AtomicI64, AtomicU64, AtomicUsize, Ordering::Relaxed};
+
+/// Callback type for [`yield_point()`]
+pub type YieldHook = fn(site: &'static str);
+
+static YIELD_HOOK: AtomicUsize = AtomicUsize::new(0);
+
+/// Number of manager stores that have been created and not yet dropped
+pub static LIVE_STORES: AtomicI64 = AtomicI64::new(0);
+/// Number of apply cache insertions that overwrote an entry with another key
+pub static CACHE_EVICTIONS: AtomicU64 = AtomicU64::new(0);
+/// Number of apply cache hits
+pub static CACHE_HITS: AtomicU64 = AtomicU64::new(0);
+
+/// Install (or remove) the callback invoked at every [`yield_point()`]
+pub fn set_yield_hook(hook: Option<YieldHook>) {
+    YIELD_HOOK.store(hook.map_or(0, |h| h as usize), Relaxed);
+}
+
+/// Marks a point between two critical sections. Calls the installed hook, if
+/// any. The hook may delay or suspend the current thread.
+#[inline]
+pub fn yield_point(site: &'static str) {
+    let h = YIELD_HOOK.load(Relaxed);
+    if h != 0 {
+        // SAFETY: the value was created from a `YieldHook` in `set_yield_hook()`
+        let h: YieldHook = unsafe { std::mem::transmute::<usize, YieldHook>(h) };
+        h(site);
+    }
+}
